@@ -16,7 +16,7 @@ import types
 import warnings
 from dataclasses import field, fields, is_dataclass, make_dataclass
 from decimal import Decimal
-from enum import Enum
+from enum import Enum, IntEnum
 from typing import List, Optional, Union
 
 from xsdata.formats.dataclass.context import XmlContext
@@ -40,7 +40,9 @@ DATETIMES = [XmlDateTime(2001, 1, 31, 12, 0, 0), XmlDateTime(1999, 12, 1, 23, 59
 DURATIONS = ["P1Y2M3DT4H5M6.7S", "-P1D", "PT0S", "P400D", "PT36H"]
 
 PRIM_KINDS = ["int", "float", "decimal", "str", "bool", "bytes16", "bytes64", "date", "datetime", "duration", "enum_s", "enum_i",
-              "u_int_float", "u_int_float", "u_int_str", "u_float_str"]
+              "enum_s", "enum_i", "enum_mi", "enum_ms", "u_int_float", "u_int_float", "u_int_str", "u_float_str"]
+# kinds whose values are written without white space: they may be the items of a tokens list
+TOKEN_KINDS = {"int", "float", "decimal", "bool", "date", "datetime", "duration", "enum_s", "enum_i", "enum_mi", "enum_ms"}
 
 
 class Universe:
@@ -50,8 +52,13 @@ class Universe:
         sys.modules[self.modname] = self.module
         self.color = Enum("Color", {"RED": "red", "A_B": "a-b", "NUM": "1", "EMPTY": "e"}, module=self.modname)
         self.level = Enum("Level", {"LOW": 1, "HIGH": 2, "NEG": -3, "BIG": 2**40}, module=self.modname)
+        # mixed-in enumerations: their members are instances of int / str as well
+        self.rank = IntEnum("Rank", {"FIRST": 1, "SECOND": 2, "ZERO": 0}, module=self.modname)
+        self.tone = Enum("Tone", {"DARK": "dark", "LIGHT": "light", "N7": "7"}, type=str, module=self.modname)
         setattr(self.module, "Color", self.color)
         setattr(self.module, "Level", self.level)
+        setattr(self.module, "Rank", self.rank)
+        setattr(self.module, "Tone", self.tone)
         self.specs = {}  # class name -> [(field name, kind, shape)]
         self.classes = {}
         self._make(rng, "Leaf", [])
@@ -64,6 +71,7 @@ class Universe:
         return {
             "int": int, "float": float, "decimal": Decimal, "str": str, "bool": bool, "bytes16": bytes, "bytes64": bytes,
             "date": XmlDate, "datetime": XmlDateTime, "duration": XmlDuration, "enum_s": self.color, "enum_i": self.level,
+            "enum_mi": self.rank, "enum_ms": self.tone,
             "u_int_float": Union[int, float], "u_int_str": Union[int, str], "u_float_str": Union[float, str],
         }.get(kind) or self.classes[kind]
 
@@ -72,13 +80,21 @@ class Universe:
         n = rng.randint(2, 6)
         for i in range(n):
             kind = rng.choice(PRIM_KINDS + refs * 3)
-            shape = rng.choice(["req", "opt", "opt", "list", "list"])
+            # req / opt / list, a list under a wrapper element, a list written as one tokens value
+            shape = rng.choice(["req", "opt", "opt", "list", "list", "wlist", "wlist", "tokens"])
             is_cls = kind in refs
-            xml = "Element" if (shape == "list" or is_cls or rng.random() < 0.6) else "Attribute"
+            if shape == "tokens" and kind not in TOKEN_KINDS:
+                shape = "wlist"
+            xml = "Element" if (shape in ("list", "wlist") or is_cls or rng.random() < 0.6) else "Attribute"
             md = {"type": xml}
+            if shape == "wlist":
+                md["wrapper"] = f"W{i}"
+                md["name"] = f"item{i}"
+            if shape == "tokens":
+                md["tokens"] = True
             if kind.startswith("bytes"):
                 md["format"] = "base16" if kind == "bytes16" else "base64"
-            if rng.random() < 0.3:
+            if rng.random() < 0.3 and shape != "wlist":
                 md["name"] = f"n{i}-{kind[:3]}"
             tp = self.pytype(kind)
             fname = f"f{i}"
@@ -125,6 +141,10 @@ class Universe:
             return rng.choice(list(self.color))
         if kind == "enum_i":
             return rng.choice(list(self.level))
+        if kind == "enum_mi":
+            return rng.choice(list(self.rank))
+        if kind == "enum_ms":
+            return rng.choice(list(self.tone))
         if kind == "u_int_float":
             return rng.choice(INTS) if rng.random() < 0.4 else rng.choice(FLOATS)
         if kind == "u_int_str":
@@ -150,7 +170,12 @@ class Universe:
 
 # ------------------------------------------------------------------ strict equality (NaN ≈ NaN)
 def same(a, b):
+    """`a` (decoded) against `b` (original)"""
     if type(a) is not type(b):
+        # the member of a mixed-in enumeration (IntEnum, str + Enum) IS an int / str and equals its value:
+        # the converters give the plain value back, which is an equal object
+        if isinstance(b, Enum) and isinstance(b, (int, str)) and type(a) in (int, str):
+            return a == b
         return False
     if isinstance(a, float):
         if math.isnan(a) or math.isnan(b):
